@@ -75,6 +75,10 @@ def hcurl_orient():
     ix = t2.only(_assign(fn, 'ix'), 'ix = ...')
     if t2.src(ix.value) != 'int(i / divide_by)':
         raise TranslateError('ElementHcurl.orient: ix = ' + t2.src(ix.value))
+    guards = [t2.src(s.test) for s in fn.body if isinstance(s, ast.If)]
+    want = ['tind is None', 'mapping.mesh.dim() == 2 and ix >= self.refdom.nfacets', 'mapping.mesh.dim() == 3']
+    if guards != want:
+        raise TranslateError('ElementHcurl.orient: guards ' + repr(guards))
     return f'Definition gen_hcurl_ori (a b : Z) : Z := {body}%Z.'
 
 
